@@ -6,6 +6,7 @@ obligations `well_locked vm_table = true` / `vm_skeleton_ok` are re-checked by c
 theorem; (ii) sequential op histories on the real VM vs the sequential spec; (iii) `go build -race`
 stress (child processes, GOMAXPROCS sweep) and recorded concurrent histories checked for one winner,
 real-time visibility and (small ones) full linearizability against the spec."""
+import itertools
 import json
 import os
 import re
@@ -69,8 +70,12 @@ def rand_op(rng, nextfile, used, scalars=False, names=NAMES):
         return {"op": "setconst", "name": rng.choice(["K", "L"]), "val": rng.randint(1, 9)}
     if r < 0.84:
         return {"op": "getconst", "name": rng.choice(["K", "\\K", "L"])}
-    if r < 0.90:
+    if r < 0.88:
         return {"op": "global", "name": rng.choice(["g", "h"])}
+    if r < 0.905:
+        # a file with a top-level $g is loaded: RegisterGlobalContext.  Not a call of the registry model: it produces no
+        # observation of its own and is left out of the Coq history; what it may NOT do is change the cell `global` returns
+        return {"op": "regglobal", "name": rng.choice(["g", "h"])}
     if r < 0.95:
         return {"op": "setfile", "name": rng.choice(FILES)}
     return {"op": "getfile", "name": rng.choice(FILES)}
@@ -133,6 +138,8 @@ def coq_conc(cfg, res):
     for ops, rs in zip(cfg["threads"], res):
         evs = []
         for i, (o, r) in enumerate(zip(ops, rs)):
+            if o["op"] == "regglobal":
+                continue          # no observation of its own (see rand_op)
             evs.append("{| e_c := %s; e_o := %s; e_t0 := %d; e_t1 := %d |}" % (coq_call(o, 0), coq_obs(r), r.get("t0", 0), r.get("t1", 0)))
         ths.append(coq_list(evs))
     return coq_list(ths)
@@ -237,6 +244,10 @@ def main(ck):
         for _ in range(nseq):
             nextfile, used = [1], []
             seqs.append({"ops": [rand_op(rng, nextfile, used) for _ in range(rng.randint(1, 14))]})
+        # the globals registry, "one cell per name, ever": every order of global / file-with-top-level-variable / global
+        for pat in itertools.product(["global", "regglobal"], repeat=4):
+            for nm in (["g", "g", "g", "g"], ["g", "h", "g", "h"]):
+                seqs.append({"ops": [{"op": k, "name": n} for k, n in zip(pat, nm)] + [{"op": "global", "name": "g"}, {"op": "global", "name": "h"}]})
     bad = {}
     terms = []
     if seqs:
@@ -251,8 +262,9 @@ def main(ck):
             seqs = [c for c, o in live]
             outs = [o for c, o in live]
             for c, o in zip(seqs, outs):
-                terms.append("(%s, %s)" % (coq_list(coq_call(x, i) for i, x in enumerate(c["ops"])),
-                                           coq_list(coq_obs(r) for r in o["res"])))
+                keep = [i for i, x in enumerate(c["ops"]) if x["op"] != "regglobal"]
+                terms.append("(%s, %s)" % (coq_list(coq_call(c["ops"][i], i) for i in keep),
+                                           coq_list(coq_obs(o["res"][i]) for i in keep)))
             bad = ck.eval_cases("seq", HEADER, terms, "check_seq", shard=max(100, len(terms) // 16 + 1))
     cl = {1: "sequential spec vs implementation", 2: "one_winner_per_name(impl)", 3: "success_visible_later(impl)", 6: "panic"}
     for j, cls in sorted(bad.items(), key=lambda kv: len(seqs[kv[0]]["ops"])):
